@@ -39,6 +39,8 @@ var unlistedErr = stderrors.New("unlisted failure")
 
 type panicStruct struct{ A int }
 
+type replCtxKey struct{}
+
 type callSpec struct {
 	Outs  []int // per output: 0 no correlation id, 1 has its own correlation id
 	Err   int   // 0 nil, 1 listed, 2 unlisted, 3 errors.Wrap(listed), 4 fmt %w (not generated: not demanded, IgnoreErrors documents errors.Cause), 5-7 errors.Wrap/WithMessage/WithStack(unlisted)
@@ -46,6 +48,9 @@ type callSpec struct {
 	// SetCorr: the handler assigns the incoming message its correlation id during the call, if it has none yet
 	// (SetCorrelationID is documented for "when the message enters the system"): outputs lacking one get THAT id
 	SetCorr bool
+	// ReplCtx: the handler replaces the message context with one derived from it (adds a value): whatever a middleware
+	// installed for the call is gone after the call all the same
+	ReplCtx bool
 }
 
 type callObs struct {
@@ -74,6 +79,9 @@ func (s *script) handler(msg *message.Message) ([]*message.Message, error) {
 	s.obs = append(s.obs, o)
 	if sp.SetCorr {
 		middleware.SetCorrelationID(fmt.Sprintf("assigned-in-call-%d", i), msg)
+	}
+	if sp.ReplCtx {
+		msg.SetContext(context.WithValue(msg.Context(), replCtxKey{}, i))
 	}
 	for k, kind := range sp.Outs {
 		m := message.NewMessage(fmt.Sprintf("c%d-o%d", i, k), []byte("x"))
@@ -287,6 +295,7 @@ func genCase(t *rapid.T) caseT {
 			sp.Outs = append(sp.Outs, rapid.IntRange(0, 1).Draw(t, "outHasCorrelationID"))
 		}
 		sp.SetCorr = rapid.IntRange(0, 3).Draw(t, "handlerAssignsCorrelationID") == 0
+		sp.ReplCtx = rapid.IntRange(0, 3).Draw(t, "handlerReplacesTheMessageContext") == 0
 		switch rapid.IntRange(0, 5).Draw(t, "outcome") {
 		case 0, 1:
 		case 2, 3:
@@ -637,5 +646,45 @@ func TestThrottleRate(t *testing.T) {
 		}
 		lib.Case(fmt.Sprintf("throttle|%d|%d|%d|%s", periodUs, n, count, kinds), strings.Contains(kinds, "1"), "throttle")
 		lib.Sample(map[string]any{"test": "ThrottleRate", "period": period.String(), "calls": n, "msg_ctx_kinds": kinds})
+	})
+}
+
+// ---------- Throttle after an idle period ----------
+
+// "handler starts no faster than the configured rate": a throttle that had nothing to do for a while does not owe anybody
+// the starts it did not hand out. With a ticker at most one tick waits while nobody asks; so of four consecutive starts the
+// last is at least two periods after the tick the first one used. The check demands one period between the first and the
+// fourth start (the slack absorbs ticks that fire late on a loaded machine) and confirms a miss with a second run.
+func throttleBurstAfterIdle(period time.Duration, idlePeriods, burst int) (span time.Duration, ok bool) {
+	th := middleware.NewThrottle(1, period)
+	var starts []time.Time
+	h := th.Middleware(func(m *message.Message) ([]*message.Message, error) {
+		starts = append(starts, time.Now())
+		return nil, nil
+	})
+	h(message.NewMessage("first", nil))
+	time.Sleep(time.Duration(idlePeriods) * period)
+	starts = nil
+	for i := 0; i < burst; i++ {
+		h(message.NewMessage(fmt.Sprint(i), nil))
+	}
+	span = starts[3].Sub(starts[0])
+	return span, span >= period
+}
+
+func TestThrottleAfterIdle(t *testing.T) {
+	rapid.Check(t, func(t *rapid.T) {
+		period := time.Duration(rapid.IntRange(15, 30).Draw(t, "periodMs")) * time.Millisecond
+		idle := rapid.IntRange(4, 10).Draw(t, "idlePeriods")
+		burst := rapid.IntRange(4, 6).Draw(t, "burst")
+		span, ok := throttleBurstAfterIdle(period, idle, burst)
+		if !ok {
+			span2, ok2 := throttleBurstAfterIdle(period, idle, burst)
+			if !ok2 {
+				t.Fatalf("violation: after %d idle periods four consecutive handler starts happened within %v (confirmed: %v); at 1 per %v they need more than one period", idle, span, span2, period)
+			}
+		}
+		lib.Case(fmt.Sprintf("throttle-idle|%v|%d|%d", period, idle, burst), true, "throttle-after-idle")
+		lib.Sample(map[string]any{"test": "ThrottleAfterIdle", "period": period.String(), "idle_periods": idle, "burst": burst, "first_to_fourth_start": span.String()})
 	})
 }
